@@ -5,6 +5,7 @@
 mod frontend;
 mod kernels;
 mod layout;
+mod lspx;
 mod positions;
 mod totality;
 mod typing;
@@ -27,6 +28,8 @@ fn main() {
         "serve" => frontend::run_serve(rest),
         "total" => totality::run_total(rest),
         "layout" => layout::run_layout(rest),
+        "lspx" => lspx::run_lspx(rest),
+        "lspx-one" => lspx::run_lspx_one(rest),
         other => {
             eprintln!("unknown subcommand {other}");
             std::process::exit(2);
